@@ -44,9 +44,11 @@ func storeSnapshot(s *drv.Server, buckets []string, extraKeys map[string][]strin
 		if g.Status == 200 {
 			for hk := range g.Header {
 				l := strings.ToLower(hk)
-				if strings.HasPrefix(l, "x-amz-meta-") || l == "content-type" {
-					meta = append(meta, hk+"="+g.Header.Get(hk))
+				// every header that describes the object (not the request) is part of what the key returns
+				if l == "x-amz-request-id" || l == "x-amz-id-2" || l == "date" || l == "server" {
+					continue
 				}
+				meta = append(meta, hk+"="+g.Header.Get(hk))
 			}
 			sort.Strings(meta)
 		}
@@ -174,7 +176,11 @@ func c10Ops() []c10Op {
 		{"get", func(s *drv.Server, b, k string, body []byte) *drv.Resp { return s.Get(b, k) }, false},
 		{"head", func(s *drv.Server, b, k string, body []byte) *drv.Resp { return s.Head(b, k) }, false},
 		{"delete", func(s *drv.Server, b, k string, body []byte) *drv.Resp { return s.Delete(b, k) }, true},
-		{"copy-to", func(s *drv.Server, b, k string, body []byte) *drv.Resp { return s.Copy(b, "other", b, k) }, true},
+		{"copy-to", func(s *drv.Server, b, k string, body []byte) *drv.Resp {
+			// a copy that overrides metadata: the source must keep its own
+			return s.Do(&drv.Req{Method: "PUT", Path: drv.ObjPath(b, k), Header: drv.H("x-amz-copy-source", drv.CopySourceEscape(b, "other"),
+				"Content-Type", "application/x-copied", "x-amz-meta-owner", "the copy", "x-amz-meta-extra", "only on the copy")})
+		}, true},
 		{"multi-delete", func(s *drv.Server, b, k string, body []byte) *drv.Resp {
 			return s.Do(&drv.Req{Method: "POST", Path: "/" + b, Query: "delete", Body: deleteXML([]string{k}, false)})
 		}, true},
